@@ -230,6 +230,13 @@ impl<T: TypeConfig> RaftRoleState for FollowerState<T> {
                             }
                         }
 
+                        // Raft: term and vote are persisted before the reply leaves the node, so
+                        // a crash + restart can neither grant a second vote in this term nor
+                        // fall back to an older term.
+                        if state_update.term_update.is_some() || new_voted_for.is_some() {
+                            ctx.raft_log().save_hard_state(&self.shared_state.hard_state)?;
+                        }
+
                         let response = VoteResponse {
                             term: my_term,
                             vote_granted: new_voted_for.is_some(),
